@@ -35,6 +35,87 @@ pub fn run(scenario: &str, input: &Value) -> Option<(bool, Value)> {
             }
             Some((ok, json!({"len": len, "items": items, "probe": probe_res})))
         }
+        // C03: an encoding of an atom decodes to exactly that atom (text given as UTF-8)
+        "decode_atom" => {
+            let data = gen_bytes(input);
+            let want = input["atom_utf8"].as_str().unwrap().to_string();
+            let owned = erltf::decode(&data);
+            let ok_owned = matches!(&owned, Ok(erltf::OwnedTerm::Atom(a)) if a.as_str() == want);
+            let mut ok = ok_owned;
+            let mut borrowed_obs = Value::Null;
+            if input.get("also_borrowed").and_then(|v| v.as_bool()).unwrap_or(false) {
+                let b = erltf::decoder::decode_borrowed(&data);
+                let okb = matches!(&b, Ok(t) if matches!(t.to_owned(), erltf::OwnedTerm::Atom(ref a) if a.as_str() == want));
+                ok &= okb;
+                borrowed_obs = json!(format!("{:?}", b.map(|t| t.to_owned())));
+            }
+            Some((ok, json!({"owned": format!("{:?}", owned), "borrowed": borrowed_obs})))
+        }
+        // C02: every decoding entry point returns; allocation stays proportional to the input
+        "decode_bytes" => {
+            let data = gen_bytes(input);
+            let entry = input["entry"].as_str().unwrap_or("owned").to_string();
+            let stack = input.get("stack_bytes").and_then(|v| v.as_u64()).unwrap_or(2 * 1024 * 1024) as usize;
+            let len = data.len();
+            let extra = input.get("inflated").and_then(|v| v.as_u64()).unwrap_or(0) as usize;
+            crate::alloc_probe::reset();
+            let h = std::thread::Builder::new().stack_size(stack).spawn(move || {
+                let r: String = match entry.as_str() {
+                    "owned" => format!("{:?}", erltf::decode(&data).map(|t| t.type_name())),
+                    "borrowed" => format!("{:?}", erltf::decoder::decode_borrowed(&data).map(|_| "term").map_err(|e| e.error)),
+                    "with_trailing" => format!("{:?}", erltf::decoder::decode_with_trailing(&data).map(|(t, _)| t.type_name())),
+                    "atom_cache" => {
+                        let mut c = erltf::decoder::AtomCache::new();
+                        format!("{:?}", erltf::decoder::decode_with_atom_cache(&data, &mut c).map(|(t, _)| t.type_name()))
+                    }
+                    "fragment_header" => format!("{:?}", erltf::decoder::decode_fragment_header(&data).map(|(h, _)| h.fragment_id)),
+                    _ => "unknown entry".to_string(),
+                };
+                r
+            }).expect("spawn");
+            let res = h.join();
+            let max_req = crate::alloc_probe::max_req();
+            let budget = 64 * (len + extra) + 65536;
+            match res {
+                Ok(r) => Some((max_req <= budget, json!({"result": r.chars().take(80).collect::<String>(), "input_len": len, "max_single_allocation": max_req, "budget": budget}))),
+                Err(_) => Some((false, json!({"result": "panic", "input_len": len}))),
+            }
+        }
         _ => None,
+    }
+}
+
+/// input bytes: either literal `bytes`, or a generator
+fn gen_bytes(input: &Value) -> Vec<u8> {
+    if let Some(a) = input.get("bytes").and_then(|v| v.as_array()) {
+        return a.iter().map(|x| x.as_u64().unwrap() as u8).collect();
+    }
+    match input["gen"].as_str().unwrap_or("") {
+        // 131, then `depth` nested one-element LIST_EXT, innermost NIL, then the NIL tails
+        "nested_list" => {
+            let d = input["depth"].as_u64().unwrap() as usize;
+            let mut v = vec![131u8];
+            for _ in 0..d { v.extend_from_slice(&[108, 0, 0, 0, 1]); }
+            v.push(106);
+            for _ in 0..d { v.push(106); }
+            v
+        }
+        // COMPRESSED term declaring `declared` bytes whose zlib stream inflates to `actual` zero bytes of a BINARY_EXT
+        "zip_bomb" => {
+            use std::io::Write;
+            let declared = input["declared"].as_u64().unwrap() as u32;
+            let actual = input["actual"].as_u64().unwrap() as usize;
+            let mut inner = vec![109u8];
+            inner.extend_from_slice(&((actual as u32).to_be_bytes()));
+            inner.resize(5 + actual, 0);
+            let mut e = flate2::write::ZlibEncoder::new(Vec::new(), flate2::Compression::best());
+            e.write_all(&inner).unwrap();
+            let z = e.finish().unwrap();
+            let mut v = vec![131u8, 80];
+            v.extend_from_slice(&declared.to_be_bytes());
+            v.extend_from_slice(&z);
+            v
+        }
+        _ => Vec::new(),
     }
 }
